@@ -120,6 +120,24 @@ def gen_docs(ctx, rng):
                 segs = docgen.mutate_structure(rng, segs, d)
             kind = 'mutated'
         docs.append((kind, d, segs, lx))
+    # a complete, self-consistent unit (whole group GS..GE, or whole set ST..SE, own unused control numbers, right counts) placed
+    # where it does not belong: after the IEA (outside every interchange), or between ISA and the first GS / inside another set.
+    # The ONLY defect is the placement.
+    for k in range(120 if ctx['tier'] == 'thorough' else 30):
+        d = rng.choice(docgen.DELIM_SETS[:4])
+        a = docgen.envelope_doc(rng, d, icvn='00401', n_isa=1, max_groups=2, max_sets=2, max_body=3, faults=0.0, hl=True, lx=False)
+        b = docgen.envelope_doc(rng, d, icvn='00401', n_isa=1, max_groups=1, max_sets=1, max_body=2, faults=0.0, hl=True, lx=False)
+        ids = [docgen.seg_id_of(x, d) for x in b]
+        unit = None
+        if rng.random() < 0.5 and 'GS' in ids and 'GE' in ids:
+            unit = b[ids.index('GS'):ids.index('GE') + 1]
+        elif 'ST' in ids and 'SE' in ids:
+            unit = b[ids.index('ST'):ids.index('SE') + 1]
+        if not unit:
+            continue
+        where = rng.choice(['after-iea', 'after-iea', 'after-isa'])
+        segs = a + unit if where == 'after-iea' else a[:1] + unit + a[1:]
+        docs.append(('displaced-unit:' + where, d, segs, False))
     # hand-written arrangements (first: the ones that used to crash or be silent)
     d = ('~', '*', ':')
     I = docgen.isa('000000001', d)
